@@ -51,6 +51,10 @@ def run(prog, chk):
     from . import lin_buffer, c08
     lin_buffer.run(prog, chk, c08.methods(prog), rid="C13.i")
     send_reports_accepted_bytes(prog, chk, "C13.j")
+    # the send backlog is a Buffer that is freed whenever it has drained and grown again by the next partial send: the pairing of
+    # `buffer = 0` with `_capacity = 0` (C08.b0) and the terminator obligation (C08.a) decide clauses of this property as well
+    from .server_common import Only
+    c08.run(prog, Only(chk, "C08.b0", "C13.k"))
     chk.rule("C13.h", "ORD: when the interest set of a socket shrinks (suspend), Poll::set prunes the removed flags from the events already "
                       "buffered from the current epoll_wait round, computing them from the registered flags before these are overwritten", floor=1)
     from . import c14
@@ -235,6 +239,16 @@ def run(prog, chk):
             if not any(re.search(r"_clients\.append", f.r(x)) and f.dominates_pos(f.node_pos(x), f.node_pos(c)) for x in q.calls(f)):
                 continue
             v = fin.eval_expr(f, q.call_args(f, c)[1], {})
+            # the registration must be in place before the client is handed to user code: a callback that receives the client may
+            # suspend it or write to it, and a registration made afterwards overwrites what those calls registered
+            born = q.pos_of(f, [x for x in q.calls(f) if re.search(r"_clients\.append", f.r(x))])      # a later round creates another client
+            handed = [cb for cb, _root, _t in callback_calls(f) if any(re.search(r"\bclient\b", f.r(a_)) for a_ in q.call_args(f, cb)) and
+                      f.node_pos(cb) is not None and f.find_path(f.node_pos(cb), {f.node_pos(c)}, avoid=born) is not None]
+            if handed:
+                chk.bad("C13.d", f, "registration-after-handover", f.where(c),
+                        "the new client is registered with the poll set after `%s` has handed it to user code: suspend() or a write with a backlog "
+                        "inside that callback is overwritten (a suspended client gets read events / a backlog is never flushed)" % f.r(handed[0])[:60])
+                continue
             if v == RF:
                 chk.ok("C13.d", f, "fresh client registered for reading", f.where(c), "flags == readFlag", nontrivial=False)
             else:
